@@ -369,6 +369,34 @@ def r11_control_word_decision(chk, prog, rule='R11'):
     return n
 
 
+def r12_store_independent_of_destination(chk, prog, rule='R12'):
+    """what a scalar destination holds after an assignment is determined by the value given (for a flag: by the
+    configured value-to-set), never by what the destination held before: in every assign() of a non-container
+    argument class the expression stored into the destination does not read the destination - a flag that toggles
+    would come out differently when the same flag arrives from the argument file and again from the command line"""
+    n = 0
+    for f in prog.functions:
+        if f.short != 'assign' or f.body is None or not (f.cls or '').startswith('celma::prog_args::detail::TypedArg<'):
+            continue
+        stores = []
+        for x in f.walk():
+            if x.get('k') == 'BinaryOperator' and x.get('op') == '=' and field_name(children(x)[0]) == 'mDestVar' and \
+                    strip_all_casts(children(x)[0]).get('k') == 'MemberExpr':
+                stores.append((x, children(x)[1]))
+            elif x.get('k') == 'CXXOperatorCallExpr' and x.get('op') == '=' and call_args(x) and \
+                    field_name(call_args(x)[0]) == 'mDestVar' and strip_all_casts(call_args(x)[0]).get('k') == 'MemberExpr':
+                stores.append((x, call_args(x)[1]))
+        for x, rhs in stores:
+            n += 1
+            chk.check(not mentions_field(rhs, 'mDestVar'), rule, f.name, 'the stored value does not depend on the '
+                      'previous content of the destination', f.loc(x), 'the stored expression reads the destination')
+        if (f.cls or '').endswith('TypedArg<bool>'):
+            chk.check(bool(stores) and all(mentions_field(r, 'mValue2Set') for _, r in stores), rule, f.name,
+                      'a flag stores the configured value (set, or cleared after unsetFlag())', f.loc())
+    chk.require(n >= 10, 'direct stores into scalar destinations: %d' % n)
+    return n
+
+
 def run(chk):
     prog, units = rules.prog_args_program()
     chk.units = units
@@ -390,6 +418,9 @@ def run(chk):
     r2(chk, prog, tb)
     r3(chk, prog, tb)
     c05.r2(chk, prog, rule='R4')
+    # ... with the key algebra the lookup is built on: a command-line key (short OR long) equals exactly the
+    # arguments that carry it - otherwise one of the two spellings of an argument is not an exact match (C05-R3)
+    c05.r3(chk, prog, rule='R4')
     r5_one_shot_flags(chk, prog)
     chk.rule('R6', "tokeniser splits --key=value at the first '='", 1)
     r6_key_value_split(chk, prog)
@@ -422,3 +453,5 @@ def run(chk):
         chk.check(o['status'] == 'held', 'R10', o['function'], o['what'], o['where'], o.get('detail', ''))
     chk.rule('R11', "tokeniser: a word is a control element only if it IS '(' ')' or '!'", 10)
     r11_control_word_decision(chk, prog)
+    chk.rule('R12', 'the stored value never depends on the previous content of the destination', 10)
+    r12_store_independent_of_destination(chk, prog)
